@@ -282,7 +282,12 @@ LoopInHeader == {<<Each("v", Var("ar"), <<H("("), Each("w", Idx(ArrL(<<ArrL(<<In
                  <<Each("v", Var("ar"), <<Each("w", ArrL(<<LoopF("iter"), LoopF("index")>>), <<P(Var("w")), H(",")>>, NoElse, 1), H(";")>>, NoElse, 1)>>,
                  <<Each("v", Var("ar"), <<Each("w", ArrL(<<>>), <<H("never")>>, <<P(LoopF("iter")), P(Tern(LoopF("last"), StrL("L"), StrL("-")))>>, 1)>>, NoElse, 1)>>,
                  <<Each("v", Var("ar"), <<For(Assign("i", LoopF("index"), 1), Bin("<", Var("i"), IntL(2)), Post("++", Var("i")), <<P(Var("i"))>>, <<H("e"), P(LoopF("iter"))>>, 1), H(";")>>, NoElse, 1)>>}
-EmptyBodies == ParenText \cup LoopConds \cup NestedChains \cup LoopInIndex \cup DeadBodies \cup
+\* an @else body that is exactly one nested @if chain (no text around it): the inner chain keeps all its branches
+TF == {BoolL(TRUE), BoolL(FALSE)}
+ElseIsIf == {<<H("<"), If(<<Br(c0, <<H("A")>>)>>, <<If(<<Br(c1, <<H("B")>>), Br(c2, <<H("C")>>)>>, e, 1)>>, 1), H(">")>> : c0 \in TF, c1 \in TF, c2 \in TF \cup {Var("zz")}, e \in {NoElse, <<H("E")>>}}
+       \cup {<<H("<"), If(<<Br(c0, <<H("A")>>)>>, <<If(<<Br(c1, <<H("B")>>)>>, <<If(<<Br(c2, <<H("C")>>), Br(c3, <<H("D")>>)>>, <<H("E")>>, 1)>>, 1)>>, 1), H(">")>> : c0 \in TF, c1 \in TF, c2 \in TF, c3 \in TF}
+       \cup {<<If(<<Br(BoolL(FALSE), <<H("A")>>), Br(c0, <<H("A2")>>)>>, <<If(<<Br(c1, <<H("B")>>), Br(c2, <<H("C")>>), Br(c3, <<H("D")>>)>>, NoElse, 1)>>, 1)>> : c0 \in TF, c1 \in TF, c2 \in TF, c3 \in TF}
+EmptyBodies == ParenText \cup LoopConds \cup NestedChains \cup LoopInIndex \cup DeadBodies \cup ElseIsIf \cup
                {<<H("a"), If(<<Br(c1, b1)>>, e, 1), H("z")>> : c1 \in {BoolL(TRUE), BoolL(FALSE)}, b1 \in {<<>>, <<H("[1]")>>}, e \in {NoElse, <<>>, <<H("[e]")>>}}
           \cup {<<H("a"), If(<<Br(c1, b1), Br(c2, b2)>>, e, 1), H("z")>> : c1 \in {BoolL(TRUE), BoolL(FALSE)}, c2 \in {BoolL(TRUE), BoolL(FALSE)},
                                                                        b1 \in {<<>>, <<H("[1]")>>}, b2 \in {<<>>, <<H("[2]")>>}, e \in {NoElse, <<>>, <<H("[e]")>>}}
